@@ -8,6 +8,9 @@ import GPy.C01.Order
 import GPy.C01.OrderExact
 import GPy.C01.Paths
 import GPy.C01.Dispatch
+import GPy.C01.IdentProofs
+import GPy.C01.Generated
+import GPy.C01.HandlerFacts
 namespace GPy.C01
 
 section
@@ -568,5 +571,97 @@ example : (match execProg demoP demoProg [] with | .ok _ w => w | .err _ w => w)
 /-- test: the model VM on the compiled module does the same -/
 example : (match run demoP (compProg demoProg) 200 0 [] [] with | .ret _ w => w | _ => []) = [1, 2, 3, 5, 6, 7, 8, 9] := by
   decide
+
+
+/-! ## third round: the value of `is` / `is not` (object identity)
+
+`Ident.objectIs` = vm/eval.go `objectIs` on the representations (Go slice headers into shared
+backing arrays, map / object pointers, comparable values); `Ident.run ops` = the heap after any
+sequence of the value-creating operations of the fragment (`make`+fill, step-1 sub-slice, alias,
+new mutable object, scalar); `Ident.specIs` = Python's three-valued definition of identity. -/
+
+/-- **`is` is Python's identity** in every reachable heap, for every pair of live references:
+wherever the language reference defines the value of `a is b` (same object ⇒ True; distinct
+creation events of which one is mutable ⇒ False; different type or value ⇒ False), the
+implementation's `objectIs` yields that value.  (Where the reference leaves the answer open – two
+immutable objects of separate creation events with equal type and value, e.g. `t[:] is t`,
+`t[1:] is t[1:]`, `() is ()`, `5 is 2+3` – there is nothing to prove.) -/
+theorem is_spec {α : Type} [DecidableEq α] (ops : List (Ident.Op α)) (a b : Ident.Ref α)
+    (ha : a ∈ (Ident.run ops).live) (hb : b ∈ (Ident.run ops).live) (v : Bool)
+    (hs : Ident.specIs a.obj b.obj = some v) : Ident.objectIs a.rep b.rep = v :=
+  Ident.is_spec_inv (Ident.inv_run ops) ha hb hs
+
+/-- **identity implies equality**: two references the implementation calls identical denote objects
+of one type with one value – structurally equal item lists, so `==` holds whenever `==` is
+reflexive on the items (no NaN). -/
+theorem is_implies_eq {α : Type} (ops : List (Ident.Op α)) (a b : Ident.Ref α)
+    (ha : a ∈ (Ident.run ops).live) (hb : b ∈ (Ident.run ops).live)
+    (h : Ident.objectIs a.rep b.rep = true) : a.obj.ty = b.obj.ty ∧ a.obj.val = b.obj.val :=
+  let r := Ident.is_implies_eq_inv (Ident.inv_run ops) ha hb h
+  ⟨r.1, r.2.1⟩
+
+/-- **`is not` is the negation** of `is`, in the implementation (`do_COMPARE_OP`, PyCmp_IS_NOT) and in the reference -/
+theorem is_not_spec {α : Type} [DecidableEq α] (ops : List (Ident.Op α)) (a b : Ident.Ref α)
+    (ha : a ∈ (Ident.run ops).live) (hb : b ∈ (Ident.run ops).live) (v : Bool)
+    (hs : Ident.specIsNot a.obj b.obj = some v) : Ident.objectIsNot a.rep b.rep = v :=
+  Ident.is_not_spec_inv (Ident.inv_run ops) ha hb hs
+
+theorem is_not_negation (a b : Ident.Rep) : Ident.objectIsNot a b = !Ident.objectIs a b := rfl
+
+/-- an object is itself (the same name read twice, an alias): holds for every representation of the
+model – floats, where Go's `==` is not reflexive, are compared by bits since the fix commit -/
+theorem is_reflexive (a : Ident.Rep) : Ident.objectIs a a = true := Ident.objectIs_refl a
+
+/-- **chained identity** `a is b is c`: the instance of `compare_chain_once` – `b` is evaluated once,
+so both comparisons see the SAME reference to `b` -/
+theorem is_chain {V X W : Type} (P : Prims V X W) (a b c : Expr) (op1 op2 : CmpOp) :
+    evalE P (.compare a (.more op1 b (.one op2 c)))
+      = M.bind (evalE P a) fun va => M.bind (evalE P b) fun vb =>
+        M.bind (P.compare op1 va vb) fun r => M.bind (P.truth r) fun t =>
+          if t then M.bind (evalE P c) fun vc => P.compare op2 vb vc else M.pure r :=
+  compare_chain_once P a b c op1 op2
+
+/-- non-vacuity / tests (by `decide`, concrete heap): `t = (1, 2, 3)`, `p = t[0:2]`, `w = t[0:3]`,
+`u = t` (alias), `e1 = t[3:3]`, `e2 = t[0:0]`, `l = [..]`, `q = t[1:3][0:1]`, `n = make 0` -/
+def identDemo : List (Ident.Ref Nat) :=
+  (Ident.run [.mkSeq .tuple [1, 2, 3], .slice 0 0 2, .slice 1 0 3, .alias 2, .slice 3 3 3, .slice 4 0 0,
+              .mkBox false .list, .slice 6 1 3, .slice 0 0 1, .mkSeq .tuple []]).live.reverse
+
+/-- `t[0:2] is t`: the reference says False (different value); the data pointers ARE equal, only the
+length distinguishes them – the length test of `objectIs` is what makes this False -/
+example : (match identDemo[0]?, identDemo[1]? with
+    | some t, some p => (Ident.specIs t.obj p.obj, Ident.objectIs p.rep t.rep,
+        match p.rep, t.rep with | .slice _ x, .slice _ y => x.base == y.base && x.poff == y.poff | _, _ => false)
+    | _, _ => (none, true, false)) = (some false, false, true) := by decide
+
+/-- `t[0:3] is t` is left to the implementation (True here: same pointer, same length); the alias `u is t`
+must be True; the list is only identical to itself -/
+example : (match identDemo[0]?, identDemo[2]?, identDemo[3]? with
+    | some t, some w, some u =>
+        (Ident.specIs w.obj t.obj, Ident.objectIs w.rep t.rep, Ident.specIs u.obj t.obj, Ident.objectIs u.rep t.rep)
+    | _, _, _ => (none, false, none, false)) = (none, true, some true, true) := by decide
+
+example : (match identDemo[0]?, identDemo[6]? with
+    | some t, some l => (Ident.specIs l.obj l.obj, Ident.specIs l.obj t.obj, Ident.objectIs l.rep t.rep)
+    | _, _ => (none, none, true)) = (some true, some false, false) := by decide
+
+/-- `t[3:3] is t[0:0]` (True: the Go compiler does not advance the pointer when the new capacity is 0),
+`t[0:0] is ()` (False: `()` lives at runtime.zerobase) -/
+example : (match identDemo[4]?, identDemo[5]?, identDemo[9]? with
+    | some e1, some e2, some n => (Ident.objectIs e1.rep e2.rep, Ident.objectIs e2.rep n.rep, Ident.specIs e1.obj e2.obj)
+    | _, _, _ => (false, true, some true)) = (true, false, none) := by decide
+
+
+/-! ## third round: the opcode handlers the model was transliterated from, pinned to the source
+
+`Generated.stackOps` is rewritten from vm/eval.go of the working tree by extract/stackops before every
+proof build (one row per handler: its value-stack operations and py calls in source order, locals
+renamed in binding order); `HandlerFacts.expected` are the rows `Model.exec` was written from.  The
+equality is checked by the kernel (`rfl` on the two literal tables; `decide` on `String` does not
+reduce in this Lean version), so a reordering of pops or a swap of operand roles in any of the 83
+handlers / stack macros breaks this obligation even when no generated program distinguishes it. -/
+theorem handler_table_pinned : Generated.stackOps = HandlerFacts.expected := rfl
+
+theorem handler_table_size : Generated.stackOps.length = 83 := by decide
 
 end GPy.C01
